@@ -405,6 +405,23 @@ class Env:
 
     def unit_def(self, st):
         self.need_unit(st.get("unit"))
+        if st.get("ref") is not None:
+            # $unit name = {?node} [unit]: the node's current number, in the unit stated here
+            # or else in the node's own
+            sel = self.resolve(st["ref"])
+            if len(sel) != 1:
+                raise Abort("injection must select exactly one node", "C17",
+                            [ref_text(st["ref"]), len(sel)])
+            rnode = sel[0][1]
+            if rnode["type"] not in ("int", "float") or rnode["value"] is None or \
+                    isinstance(rnode["value"], (list, bool)):
+                raise Unspecified("unit defined from a node that is no plain number")
+            unit = st.get("unit") or rnode["unit"]
+            if unit is None or not rnode["value"] > 0:
+                raise Unspecified("unit defined from a number without unit / not positive")
+            self.need_unit(unit)
+            self.units.define(st["name"], rnode["value"], unit)
+            return
         self.units.define(st["name"], st["value"], st.get("unit"))
 
     # -- references (C17) ---------------------------------------------------------------
@@ -879,6 +896,8 @@ def render(st):
     if k == "format":
         return ind + f"!format '{st['regex']}'"
     if k == "unit":
+        if st.get("ref") is not None:
+            return ind + f"$unit {st['name']} = {ref_text(st['ref'])}{u}"
         return ind + f"$unit {st['name']} = {lit_text(st['value'])}{u}"
     if k == "source":
         return ind + f"$source {st['name']} = {st['path']}"
